@@ -434,7 +434,12 @@ def annotate_cases(rep: Report, rng: random.Random, n: int) -> None:
             rep.beyond(f"analyse_module pipeline raised {type(ex).__name__}: {str(ex)[:120]} on {label}")
             continue
         lines = abstract_lines(gmod.code)
-        cases.append({"lines": [{k: l[k] for k in ("k", "name", "args")} for l in lines], "scales": [[k, str(v)] for k, v in scales.items()]})
+        def show(sp: Any) -> str:      # the documented rendering, written independently of ScalePair.__str__: "n/a" ONLY for "nothing recorded"
+            fw = f"{sp.forward:.3}" if sp.forward is not None else "n/a"
+            bw = f"{sp.backward:.3}" if sp.backward is not None else "n/a"
+            return f"(-> {fw}, <- {bw})"
+
+        cases.append({"lines": [{k: l[k] for k in ("k", "name", "args")} for l in lines], "scales": [[k, show(v)] for k, v in scales.items()]})
         texts.append((lines, text, public))
         labels.append(label)
         rep.case(("annotate", i), nontrivial=True)
@@ -450,7 +455,12 @@ def annotate_cases(rep: Report, rng: random.Random, n: int) -> None:
         obs = [[ln.strip().split(" ")[0], re.findall(r"\(-> [^()]*\)", ln.split(";  ")[-1] if ";  " in ln else (ln.split(":  ")[-1] if ln.strip().startswith("def ") and ":  " in ln else ""))] for ln in text.splitlines()]
         if obs != exp:
             k = next((j for j in range(min(len(obs), len(exp))) if obs[j] != exp[j]), min(len(obs), len(exp)))
-            rep.beyond(f"utils._annotate ({label}): line {k}: text has {obs[k] if k < len(obs) else None}, spec Annotate.tla expects {exp[k] if k < len(exp) else None}")
+            if [o[0] for o in obs] == [e_[0] for e_ in exp] and [len(o[1]) for o in obs] == [len(e_[1]) for e_ in exp]:
+                # same lines, same number of annotations, but a VALUE is reported differently from what was recorded (e.g. a recorded
+                # standard deviation of 0.0 shown as "n/a", the marker of "no gradient reached this tensor"): analyse_module's metrics
+                rep.violation(f"analyse_module ({label}): line {k} reports {obs[k]}, the recorded scales are {exp[k]}", {"label": label, "line": k, "reported": obs[k], "recorded": exp[k]}, key="analyse_module_reports_other_value")
+            else:
+                rep.beyond(f"utils._annotate ({label}): line {k}: text has {obs[k] if k < len(obs) else None}, spec Annotate.tla expects {exp[k] if k < len(exp) else None}")
         if public is not None and [re.sub(r"\(->[^()]*\)", "", a) for a in public.splitlines()] != [re.sub(r"\(->[^()]*\)", "", a) for a in text.splitlines()]:
             rep.beyond(f"analyse_module ({label}) does not return _annotate(traced code, recorded scales)")
     rep.extra["annotate_cases"] = len(cases)
